@@ -373,7 +373,8 @@ define(
     '(1 - level)/2, precision = |lower - median|, scale = posterior scale; '
     'lemma: lower <= estimate <= upper and precision = estimate - lower '
     'when the lower tail probability is <= 0.5 (the all-levels clause is the '
-    'known finding).  The posterior itself on every analysed day (vs Kerman '
+    'known finding); the aggregated analysis frame is ordered by (group, '
+    'date).  The posterior itself on every analysed day (vs Kerman '
     'eq. 5) and its invariance to row order / geos per group / unassigned '
     'rows are a bounded run-time contract against a plain-NumPy oracle.',
     'DESIGN.md section 7, C06',
@@ -447,7 +448,8 @@ define(
 define(
     'C18', 'exploration',
     [('common_classes',
-      ['EstimatedTimeSeriesWithConfidenceInterval.__init__'], False)],
+      ['EstimatedTimeSeriesWithConfidenceInterval.__init__'], False),
+     ('tbr', ['TBR._construct_analysis_data'], False)],
     ENGINE_TRUST[:3] + [
         'the series container is a DataFrame: after DataFrame.__init__ it has '
         'a set of column names and real cells; df[a] > df[b] and np.any as '
@@ -457,7 +459,9 @@ define(
     'Proved: the series container accepts exactly the frames that have the '
     'columns date / estimate / lower / upper and lower <= estimate <= upper '
     'on every row (KeyError / ValueError otherwise), so every series of a '
-    'report that was built satisfies the ordering.  That the report '
+    'report that was built satisfies the ordering; the aggregated analysis '
+    'frame the series are computed from is ordered by (group, date) '
+    '(groupby sorts by its keys).  That the report '
     'succeeds for every fitted experiment, counterfactual + difference = '
     'observed, residuals and the last cumulative row against the TBR '
     'posterior: bounded run-time contract vs recomputation.',
